@@ -32,8 +32,53 @@ func paramRefOf(v ssa.Value, h *ssa.Function) int {
 	return -1
 }
 
-// cmpHelperOf: h is a repo function that returns exactly `param_i OP param_j`.
+// cmpOperand: an operand of a comparison helper: parameter idx itself (fld nil),
+// or member fld of (what) parameter idx (points to).
+type cmpOperand struct {
+	idx int
+	fld *types.Var
+}
+
+func cmpOperandOf(v ssa.Value, h *ssa.Function) (cmpOperand, bool) {
+	if i := paramRefOf(v, h); i >= 0 {
+		return cmpOperand{idx: i}, true
+	}
+	v = stripConv(v)
+	switch x := v.(type) {
+	case *ssa.Field:
+		if i := paramRefOf(x.X, h); i >= 0 {
+			f, _ := fieldOf(x)
+			return cmpOperand{i, f}, f != nil
+		}
+	case *ssa.UnOp:
+		if fa, ok := x.X.(*ssa.FieldAddr); ok && x.Op == token.MUL {
+			f, _ := fieldOf(fa)
+			base := fa.X
+			if p, isP := base.(*ssa.Parameter); isP && p.Parent() == h {
+				return cmpOperand{paramIndexOf(p), f}, f != nil
+			}
+			if al, isAl := base.(*ssa.Alloc); isAl {
+				if p := rootParam(cval{v: al}); p != nil && p.Parent() == h {
+					return cmpOperand{paramIndexOf(p), f}, f != nil
+				}
+			}
+		}
+	}
+	return cmpOperand{}, false
+}
+
+// cmpHelperOf: h is a repo function that returns exactly `X OP Y` where X and Y
+// are parameters or members of parameters, and does nothing else (taking and
+// releasing its own lock aside).
 func cmpHelperOf(h *ssa.Function) (op token.Token, i, j int, ok bool) {
+	op, x, y, ok := cmpHelperOfF(h)
+	if !ok || x.fld != nil || y.fld != nil {
+		return op, 0, 0, false
+	}
+	return op, x.idx, y.idx, true
+}
+
+func cmpHelperOfF(h *ssa.Function) (op token.Token, x, y cmpOperand, ok bool) {
 	if h == nil || h.Blocks == nil || !isRepoFunc(h) || h.Signature.Results().Len() != 1 || !isBoolType(h.Signature.Results().At(0).Type()) {
 		return
 	}
@@ -41,7 +86,16 @@ func cmpHelperOf(h *ssa.Function) (op token.Token, i, j int, ok bool) {
 	if len(rets) != 1 {
 		return
 	}
-	b, isB := returnValues(rets[0])[0].(*ssa.BinOp)
+	rv := returnValues(rets[0])[0]
+	if u, isU := rv.(*ssa.UnOp); isU && u.Op == token.MUL {
+		// the result spilled around deferred calls
+		if al, isAl := u.X.(*ssa.Alloc); isAl {
+			if w := cellValue(al); w != nil {
+				rv = w
+			}
+		}
+	}
+	b, isB := rv.(*ssa.BinOp)
 	if !isB {
 		return
 	}
@@ -50,21 +104,31 @@ func cmpHelperOf(h *ssa.Function) (op token.Token, i, j int, ok bool) {
 	default:
 		return
 	}
-	i, j = paramRefOf(b.X, h), paramRefOf(b.Y, h)
-	if i < 0 || j < 0 || i == j {
+	var ok1, ok2 bool
+	x, ok1 = cmpOperandOf(b.X, h)
+	y, ok2 = cmpOperandOf(b.Y, h)
+	if !ok1 || !ok2 || (x.idx == y.idx && x.fld == y.fld) {
 		return
 	}
-	// nothing else happens in it
-	if len(callsIn(h)) != 0 {
-		return
+	for _, ci := range callsIn(h) {
+		if _, lop := lockOp(ci); lop == "" {
+			return
+		}
 	}
-	return b.Op, i, j, true
+	return b.Op, x, y, true
 }
 
 // cmpEdgesV: the edges of fn on which `X op Y` holds / fails, where px and py
 // judge the operands at the comparison: a BinOp in fn, or a call of a
 // comparison helper (its operands are the arguments).
 func cmpEdgesV(fn *ssa.Function, op token.Token, px, py func(ssa.Value) bool) (holds, fails []Edge) {
+	return cmpEdgesVF(fn, op, px, py, nil, nil)
+}
+
+// cmpEdgesVF: as cmpEdgesV; a helper operand that is a member of its argument
+// (`func (s *segment) spent(max int) bool { return s.nreads >= max }`) matches
+// when the member is fx (fy).
+func cmpEdgesVF(fn *ssa.Function, op token.Token, px, py func(ssa.Value) bool, fx, fy *types.Var) (holds, fails []Edge) {
 	h1, f1 := cmpEdges(fn, func(b *ssa.BinOp) bool { return b.Op == op && px(b.X) && py(b.Y) })
 	holds, fails = h1, f1
 	for _, ci := range callsIn(fn) {
@@ -72,12 +136,17 @@ func cmpEdgesV(fn *ssa.Function, op token.Token, px, py func(ssa.Value) bool) (h
 		if !isCall {
 			continue
 		}
-		hop, i, j, ok := cmpHelperOf(staticCallee(call))
-		if !ok || hop != op || i >= len(call.Call.Args) || j >= len(call.Call.Args) {
+		hop, x, y, ok := cmpHelperOfF(staticCallee(call))
+		if !ok || hop != op || x.idx >= len(call.Call.Args) || y.idx >= len(call.Call.Args) {
 			continue
 		}
-		ax, ay := argValue(call.Call.Args[i]), argValue(call.Call.Args[j])
-		if !px(ax) || !py(ay) {
+		match := func(o cmpOperand, p func(ssa.Value) bool, f *types.Var) bool {
+			if o.fld != nil {
+				return f != nil && o.fld == f
+			}
+			return p(call.Call.Args[o.idx])
+		}
+		if !match(x, px, fx) || !match(y, py, fy) {
 			continue
 		}
 		t, f := boolEdges(call)
